@@ -69,13 +69,14 @@ class TimelineProcess(Process):
         for (t, change_dict) in self.timeline:
             if time >= t:
                 for path_to_variable, value in change_dict.items():
-                    # make embedded dict with keys listed in path_to_variable
-                    update_at_path = {}
+                    # set the variable to the event's value; a later
+                    # event due in the same tick replaces the value of
+                    # an earlier one (merging would combine list and
+                    # dictionary values of the two events)
                     update_value = {
                         '_value': value,
                         '_updater': 'set'}
-                    nested_set(update_at_path, path_to_variable, update_value)
-                    update = deep_merge_combine_lists(update, update_at_path)
+                    nested_set(update, path_to_variable, update_value)
 
                 log.info('timeline update: {}'.format(update))
             else:
